@@ -60,7 +60,7 @@ m = {
         "name": "lean4-proof+correspondence",
         "path": "lean/ (Lake project OrsoVerif), harness/ (Python), check",
         "serves_properties": [c["property_id"] for c in checks],
-        "kind_free_text": "Lean 4 theorems about executable models; models tied to /repo by per-run extraction of tables/constants into Lean and by a differential correspondence check against the running implementation",
+        "kind_free_text": "Lean 4 theorems about executable models; models tied to /repo (a) by per-run regeneration from the source: constants, tables, expressions (harness/pyexpr.py) and whole small functions (harness/pystmt*.py and the per-property statement readers) translated into Lean definitions that the theorems mention or are proved equal to the hand model (generated_*_eq_model / *_refines), and (b) by a differential correspondence check that runs model and implementation on the same inputs, operation sequences and histories, with a direct oracle on the implementation's own outputs",
     }],
     "checks": checks,
     "notes": table.get("notes", ""),
